@@ -477,3 +477,40 @@ _units_base3 = units
 
 def units(world):  # noqa: F811
     return _units_base3(world) + emission_units(world)
+
+
+# ---------------------------------------------------------------------------------------------
+# loader.load_default_scorer: both outcomes of "model file present?" give a Scorer instance (C01)
+def loader_units(world):
+    def mk(present):
+        def setup(it, w):
+            return [present]
+
+        def call(it, w, a):
+            it.contracts = dict(it.contracts)
+            f = w.func("loader.load_default_scorer")
+            osmod = f.module.globals.get("os")
+            saved = osmod.attrs["path"].attrs.get("exists") if hasattr(osmod, "attrs") and "path" in osmod.attrs else None
+            osmod.attrs["path"].attrs["exists"] = Builtin("os.path.exists", lambda it2, args, k: present)
+            try:
+                return it.call(f, [], {})
+            finally:
+                if saved is None:
+                    osmod.attrs["path"].attrs.pop("exists", None)
+                else:
+                    osmod.attrs["path"].attrs["exists"] = saved
+
+        def ens(it, w, a, r):
+            sc = w.classes["Scorer"]
+            want = "NaiveBayesScorer" if present else "DummyScorer"
+            return [("returns-a-scorer-instance", ["C01"], isinstance(r, Obj) and r.cls.issubclass(sc) and r.cls.name == want)]
+        return FuncUnit("loader.load_default_scorer[model file %s]" % ("present" if present else "absent"),
+                        ["loader.load_default_scorer"], ["C01", "C12"], setup, call, ens, prop_map={"safety": ["C01"], "frame": ["C12"]})
+    return [mk(True), mk(False)]
+
+
+_units_base4 = units
+
+
+def units(world):  # noqa: F811
+    return _units_base4(world) + loader_units(world)
